@@ -50,6 +50,10 @@ def configs(tier):
     # differs only there
     for (m, n) in [] if q else [(1, 13), (13, 1)]:      # ~10 min each: thorough tier only
         out.append({'name': 'as-%dx%d-Q1' % (m, n), 'kind': 'as', 'in': [m, n], 'Q': 1})
+    # the complete band through the propagation-level routines with ONE output spacing: a non-square pupil gets a different Q per axis
+    for meth in ('mdft', 'czt'):
+        for (m, n, M) in [(2, 3, 3), (3, 2, 3)] + ([] if q else [(2, 4, 4), (3, 4, 4)]):
+            out.append({'name': 'fixed-sampling-band-%s-%dx%d-%d' % (meth, m, n, M), 'kind': 'fixedband', 'method': meth, 'in': [m, n], 'M': M})
     out.append({'name': 'wavefront-wrappers', 'kind': 'wf'})
     return out
 
@@ -60,6 +64,8 @@ def params(cfg):
         # for counterexamples that show above the replay tolerance
         return [('wvl', {'pos': True}), ('dx', {'pos': True}), ('z', {'lo': -300000, 'hi': 300000}), ('z1', {'lo': -300000, 'hi': 300000}),
                 ('z2', {'lo': -300000, 'hi': 300000})]
+    if cfg['kind'] == 'fixedband':
+        return [('wvl', {'pos': True}), ('dx', {'pos': True}), ('efl', {'pos': True})]
     if cfg['kind'] == 'wf':
         return [('wvl', {'pos': True}), ('dx', {'pos': True}), ('efl', {'pos': True}), ('z', {})]
     return []
@@ -121,6 +127,16 @@ def run(cfg, H):
         Ki = flat(H.linear_map(inv, (M, N), name='g'), M * N, m * n)
         H.eq('inverse(forward(f)) == f on the complete band', mm(H, Kf, Ki), eye(H, m * n))
         H.eq('forward transform onto the complete band conserves energy', mm(H, Kf, H.conj(Kf).T), eye(H, m * n))
+    elif kind == 'fixedband':
+        m, n = cfg['in']
+        M = cfg['M']
+        wvl, dx, efl = H.param('wvl'), H.param('dx'), H.param('efl')
+        odx = wvl * efl / (dx * M)           # M output samples of this spacing span exactly one period of the transform on both axes
+        meth = cfg['method']
+        Kf = flat(H.linear_map(lambda f: prop.focus_fixed_sampling(f, dx, efl, wvl, odx, (M, M), method=meth), (m, n)), m * n, M * M)
+        Ki = flat(H.linear_map(lambda g: prop.unfocus_fixed_sampling(g, odx, efl, wvl, dx, (m, n), method=meth), (M, M), name='g'), M * M, m * n)
+        H.eq('unfocus_fixed_sampling(focus_fixed_sampling(f)) == f on the complete band', mm(H, Kf, Ki), eye(H, m * n))
+        H.eq('focus_fixed_sampling onto the complete band conserves energy', mm(H, Kf, H.conj(Kf).T), eye(H, m * n))
     elif kind == 'as':
         m, n = cfg['in']
         Q = cfg['Q']
